@@ -491,6 +491,40 @@ func c04Tokens(c *Ctx, p *Prog, m *Model, mr *ModeReach) {
 				v, ok := constInt(c2.Common().Args[len(c2.Common().Args)-1])
 				return true, ok && v == '"'
 			}
+			// a private helper that, in this mode, writes exactly one quote and nothing else
+			if fbq := mr.Blocks[cal]; fbq != nil && cal.Pkg == p.Slog {
+				quotes, others := 0, 0
+				for _, bb := range cal.Blocks {
+					if !fbq[bb] {
+						continue
+					}
+					for _, in2 := range bb.Instrs {
+						c3, ok := in2.(ssa.CallInstruction)
+						if !ok {
+							continue
+						}
+						cal3 := calleeOf(c3)
+						if cal3 == nil {
+							others++
+							continue
+						}
+						switch nm(cal3) {
+						case "checkerr", "preCheck":
+						case "WriteByte", "pcAppendByte":
+							if v, ok := constInt(c3.Common().Args[len(c3.Common().Args)-1]); ok && v == '"' {
+								quotes++
+							} else {
+								others++
+							}
+						default:
+							others++
+						}
+					}
+				}
+				if quotes == 1 && others == 0 {
+					return true, true
+				}
+			}
 			return true, false
 		}
 		before, afterQ := false, false
